@@ -38,6 +38,7 @@ func execPos(p cluster.Program, c *hx.Case) error {
 	}
 	c.LabelIf(st.ResumedSplits > 0, "split-resumed-from-checkpointed-position")
 	c.LabelIf(st.PubDuringRecovery > 0, "checkpoint-published-while-the-recovery-was-being-deployed")
+	c.LabelIf(st.SlowAssigns > 0, "slow-split-assignment")
 	c.LabelIf(st.BarriersBothSides > 0, "barrier-with-records-on-both-sides")
 	if st.Checkpoints >= 2 && (st.ResumedSplits > 0 || st.BarriersBothSides > 0) {
 		c.NonTrivial()
